@@ -47,6 +47,14 @@ for _i in (0, 1, 2):
                          (("key", "a"), ("idx", _j))]))
 COLLECT.append(("(/[1])+(/[-2])+(/[1])", [(("idx", 1),), (("idx", -2),),
                                          (("idx", 1),)]))
+# the document root gathered next to other nodes, however deeply wrapped:
+# refused, and nothing else deleted either
+for _other in ("a", "b"):
+    COLLECT.append(("(/)+(/%s)" % _other, [(), (("key", _other),)]))
+    COLLECT.append(("((/))+(/%s)" % _other, [(), (("key", _other),)]))
+    COLLECT.append(("(/%s)+((/))" % _other, [(("key", _other),), ()]))
+    COLLECT.append(("((/))+((/%s))" % _other, [(), (("key", _other),)]))
+COLLECT.append(("((/))+(/[0])", [(), (("idx", 0),)]))
 
 
 def plan(tier):
@@ -101,7 +109,16 @@ _T1 = ("port: &port {n: 1}\nbase: &base {x: 1}\nweb:\n  <<: *base\n"
        "  port: 8080\n  y: 2\n")
 _T2 = ("hosts: &port [a]\nbase: &base {x: 1}\nweb:\n  <<: *base\n"
        "  port: 8080\n  base: 5\n")
+_T3 = "x: &x {k: 1}\nb:\n  z: 0\n  <<: *x\n"
+_T4 = "x: &x {k: 1}\ny: &y {j: 2}\nb:\n  <<: [*x, *y]\n  z: 0\n"
+_T5 = "x: &x {k: 1}\nb:\n  <<: *x\n  k: 1\n  z: 0\n"
 MERGE_CASES = [
+    # a merge reference deleted by its anchor: last in the hash, one of two,
+    # next to an own key repeating a merged-in value
+    (_T3, "b.&x", {"x": {"k": 1}, "b": {"z": 0}}),
+    (_T4, "b.&y", {"x": {"k": 1}, "y": {"j": 2}, "b": {"k": 1, "z": 0}}),
+    (_T4, "b.&x", {"x": {"k": 1}, "y": {"j": 2}, "b": {"j": 2, "z": 0}}),
+    (_T5, "b.&x", {"x": {"k": 1}, "b": {"k": 1, "z": 0}}),
     (_T1, "/web/port", {"port": {"n": 1}, "base": {"x": 1},
                         "web": {"x": 1, "y": 2}}),
     (_T1, "/web/y", {"port": {"n": 1}, "base": {"x": 1},
@@ -166,7 +183,13 @@ def model(doc0, segs):
         ctxs = []
         try:
             for op in segs[1]:
-                ctxs += refedit.matched(doc0, op)
+                got = refedit.matched(doc0, op)
+                if op != () and not got:
+                    # (the engine's collectors need every operand to match)
+                    return ("nomatch",)
+                ctxs += got
+            if any(op == () for op in segs[1]):
+                return ("root",)
         except refquery.Unspecified as ex:
             return ("unspecified", str(ex))
         except refquery.ExpectError:
